@@ -155,7 +155,18 @@ def model_file(core, root, name="x.capella"):
     mf.filename = pathlib.PurePosixPath(name)
     mf.root = root
     mf._ModelFile__ignore_uuid_dups = True  # the id index is rebuilt after a replacement; duplicates only warn
+    reindex(mf)  # the state a loaded file is in (ModelFile.__init__ ends with this call)
     return mf
+
+
+def reindex(mf) -> None:
+    """`idcache_rebuild()`; a tree with a tag in an unknown / unsupported namespace cannot be indexed (such a file does
+    not load either) - `update_namespaces` is still called on it and has to raise the same way"""
+    try:
+        mf.idcache_rebuild()
+    except Exception as e:  # noqa: BLE001
+        if type(e).__name__ not in EXC:
+            raise
 
 
 def impl_update(core, mf, vps: dict) -> dict:
@@ -380,6 +391,7 @@ class TreeHistory:
 
     def step(self):
         op = self.edit()
+        reindex(self.mf)  # raw lxml edits: bring the file's indices up to date, as the object layer would
         flags: set = set()
         before = c01.export_doc(self.mf.root, flags)
         if flags:
@@ -550,6 +562,7 @@ def gen_loader(ctx, out, cases: list) -> None:
             h = TreeHistory(ctx, out, [], etree, core, ("loader", i, j))
             for _ in range(rng.randint(0, 3)):
                 h.edit()
+            reindex(h.mf)
             name = rng.choice(["f%d.capella", "f%d.capellafragment", "f%d.aird", "f%d.melodyfragment", "f%d.afm"]) % j
             h.mf.filename = pathlib.PurePosixPath(name)
             trees[pathlib.PurePosixPath(rng.choice(["\0", "lib"]), name)] = h.mf
@@ -714,7 +727,8 @@ def ns_api_history(ctx, out, capellambse, loader_fn, aird: pathlib.Path, hi: int
     tried: set = set()
     for rnd in range(rounds):
         users = users_by_prefix(m)
-        removable = sorted(p for p, es in users.items() if len(es) <= 80)
+        # not the prefixes whose removal takes the whole model away (a user directly below the fragment root)
+        removable = sorted(p for p, es in users.items() if len(es) <= 80 and not any(e.getparent().getparent() is None for e in es))
         declared = set()
         for _, frag in primary_semantic(m):
             declared |= {k for k in frag.root.nsmap if k}
